@@ -865,6 +865,7 @@ func checkC15(c *runCtx) {
 			b = 5
 		}
 		csExplore(c, "tcpmux-close-vs-getconn", b, dl, nil)
+		csExplore(c, "tcpmux-close-vs-firstframe", b-1, dl, nil)
 	} else {
 		c.capHit("built without instrumentation: the concurrent scenario was not run")
 	}
